@@ -113,6 +113,19 @@ def call_list(seed):
         calls += [["bic", b, False], ["bic", b, True]]
     calls += [["gen", "DE", "37040044", "532013000"], ["gen", "DE", "3704004-", "1"], ["gen", "ES", "2100", "200051332"],
               ["gen", "NO", "8601", "111794"], ["gen", "XX", "1", "2"], ["gen", "PL", "10901014", "0000071219812874"]]
+    # countries that share a structure string but publish different positions, in both orders (caches keyed too coarsely)
+    tab = table()
+    groups = {}
+    for cc in ccs:
+        if "positions" in tab[cc]:
+            groups.setdefault(tab[cc]["bban_spec"], []).append(cc)
+    for spec_str, members in sorted(groups.items()):
+        if len(members) > 1 and len({json.dumps(tab[m]["positions"], sort_keys=True) for m in members}) > 1:
+            for m in members[:3] + members[:3][::-1]:
+                w = tab[m]["positions"]
+                bank = "1" * (w.get("bank_code", [0, 0])[1] - w.get("bank_code", [0, 0])[0])
+                acct = "2" * (w.get("account_code", [0, 0])[1] - w.get("account_code", [0, 0])[0])
+                calls.append(["gen", m, bank, acct])
     for cc in ("DE", "PL", "SI", "GB", "NO", "FR", ""):
         for sd in (1, 2):
             calls += [["rand", cc, sd, True], ["rand", cc, sd, False]]
